@@ -5,7 +5,7 @@
 
 use super::types::UndeclaredFixture;
 use super::FixtureDatabase;
-use rustpython_parser::ast::{Expr, Stmt};
+use rustpython_parser::ast::{ExceptHandler, Expr, Pattern, Ranged, Stmt};
 use std::collections::{HashMap, HashSet};
 use std::path::{Path, PathBuf};
 use tracing::info;
@@ -70,6 +70,11 @@ impl FixtureDatabase {
         local_vars: &mut HashMap<String, usize>,
     ) {
         for stmt in body {
+            // `name := value` inside any expression of the statement binds a local name too
+            let stmt_line = self.get_line_from_offset(stmt.range().start().to_usize(), line_index);
+            for expr in Self::direct_expressions(stmt) {
+                Self::collect_walrus_targets(expr, stmt_line, local_vars);
+            }
             match stmt {
                 Stmt::Assign(assign) => {
                     let line =
@@ -109,6 +114,7 @@ impl FixtureDatabase {
                         local_vars.insert(name, line);
                     }
                     self.collect_local_variables(&for_stmt.body, line_index, local_vars);
+                    self.collect_local_variables(&for_stmt.orelse, line_index, local_vars);
                 }
                 Stmt::AsyncFor(for_stmt) => {
                     let line =
@@ -119,9 +125,11 @@ impl FixtureDatabase {
                         local_vars.insert(name, line);
                     }
                     self.collect_local_variables(&for_stmt.body, line_index, local_vars);
+                    self.collect_local_variables(&for_stmt.orelse, line_index, local_vars);
                 }
                 Stmt::While(while_stmt) => {
                     self.collect_local_variables(&while_stmt.body, line_index, local_vars);
+                    self.collect_local_variables(&while_stmt.orelse, line_index, local_vars);
                 }
                 Stmt::If(if_stmt) => {
                     self.collect_local_variables(&if_stmt.body, line_index, local_vars);
@@ -157,11 +165,174 @@ impl FixtureDatabase {
                 }
                 Stmt::Try(try_stmt) => {
                     self.collect_local_variables(&try_stmt.body, line_index, local_vars);
+                    self.collect_handler_variables(&try_stmt.handlers, line_index, local_vars);
                     self.collect_local_variables(&try_stmt.orelse, line_index, local_vars);
                     self.collect_local_variables(&try_stmt.finalbody, line_index, local_vars);
                 }
+                Stmt::TryStar(try_stmt) => {
+                    self.collect_local_variables(&try_stmt.body, line_index, local_vars);
+                    self.collect_handler_variables(&try_stmt.handlers, line_index, local_vars);
+                    self.collect_local_variables(&try_stmt.orelse, line_index, local_vars);
+                    self.collect_local_variables(&try_stmt.finalbody, line_index, local_vars);
+                }
+                Stmt::Match(match_stmt) => {
+                    for case in &match_stmt.cases {
+                        let line = self.get_line_from_offset(
+                            case.pattern.range().start().to_usize(),
+                            line_index,
+                        );
+                        let mut captured = HashSet::new();
+                        Self::collect_pattern_names(&case.pattern, &mut captured);
+                        for name in captured {
+                            local_vars.insert(name, line);
+                        }
+                        self.collect_local_variables(&case.body, line_index, local_vars);
+                    }
+                }
+                // `import a.b` binds `a`; `import a.b as c` and `from m import x as c` bind `c`
+                Stmt::Import(import) => {
+                    for alias in &import.names {
+                        let bound = match &alias.asname {
+                            Some(asname) => asname.as_str(),
+                            None => alias.name.as_str().split('.').next().unwrap_or(""),
+                        };
+                        local_vars.insert(bound.to_string(), stmt_line);
+                    }
+                }
+                Stmt::ImportFrom(import) => {
+                    for alias in &import.names {
+                        let bound = alias.asname.as_ref().unwrap_or(&alias.name);
+                        local_vars.insert(bound.to_string(), stmt_line);
+                    }
+                }
+                // nested functions and classes are local names of the enclosing function
+                Stmt::FunctionDef(def) => {
+                    local_vars.insert(def.name.to_string(), stmt_line);
+                }
+                Stmt::AsyncFunctionDef(def) => {
+                    local_vars.insert(def.name.to_string(), stmt_line);
+                }
+                Stmt::ClassDef(def) => {
+                    local_vars.insert(def.name.to_string(), stmt_line);
+                }
                 _ => {}
             }
+        }
+    }
+
+    /// Names bound by `except ... as name` and by the statements of the handlers.
+    fn collect_handler_variables(
+        &self,
+        handlers: &[ExceptHandler],
+        line_index: &[usize],
+        local_vars: &mut HashMap<String, usize>,
+    ) {
+        for handler in handlers {
+            let ExceptHandler::ExceptHandler(h) = handler;
+            if let Some(name) = &h.name {
+                let line = self.get_line_from_offset(h.range.start().to_usize(), line_index);
+                local_vars.insert(name.to_string(), line);
+            }
+            self.collect_local_variables(&h.body, line_index, local_vars);
+        }
+    }
+
+    /// Names captured by a `case` pattern.
+    fn collect_pattern_names(pattern: &Pattern, names: &mut HashSet<String>) {
+        match pattern {
+            Pattern::MatchAs(p) => {
+                if let Some(name) = &p.name {
+                    names.insert(name.to_string());
+                }
+                if let Some(inner) = &p.pattern {
+                    Self::collect_pattern_names(inner, names);
+                }
+            }
+            Pattern::MatchStar(p) => {
+                if let Some(name) = &p.name {
+                    names.insert(name.to_string());
+                }
+            }
+            Pattern::MatchMapping(p) => {
+                if let Some(rest) = &p.rest {
+                    names.insert(rest.to_string());
+                }
+                for inner in &p.patterns {
+                    Self::collect_pattern_names(inner, names);
+                }
+            }
+            Pattern::MatchSequence(p) => {
+                for inner in &p.patterns {
+                    Self::collect_pattern_names(inner, names);
+                }
+            }
+            Pattern::MatchClass(p) => {
+                for inner in p.patterns.iter().chain(&p.kwd_patterns) {
+                    Self::collect_pattern_names(inner, names);
+                }
+            }
+            Pattern::MatchOr(p) => {
+                for inner in &p.patterns {
+                    Self::collect_pattern_names(inner, names);
+                }
+            }
+            Pattern::MatchValue(_) | Pattern::MatchSingleton(_) => {}
+        }
+    }
+
+    /// The expressions a statement evaluates itself (not those of nested statements).
+    fn direct_expressions(stmt: &Stmt) -> Vec<&Expr> {
+        match stmt {
+            Stmt::Expr(s) => vec![&s.value],
+            Stmt::Assign(s) => vec![&s.value],
+            Stmt::AugAssign(s) => vec![&s.value],
+            Stmt::AnnAssign(s) => s.value.iter().map(|v| v.as_ref()).collect(),
+            Stmt::Return(s) => s.value.iter().map(|v| v.as_ref()).collect(),
+            Stmt::If(s) => vec![&s.test],
+            Stmt::While(s) => vec![&s.test],
+            Stmt::For(s) => vec![&s.iter],
+            Stmt::AsyncFor(s) => vec![&s.iter],
+            Stmt::With(s) => s.items.iter().map(|i| &i.context_expr).collect(),
+            Stmt::AsyncWith(s) => s.items.iter().map(|i| &i.context_expr).collect(),
+            Stmt::Assert(s) => std::iter::once(s.test.as_ref())
+                .chain(s.msg.iter().map(|m| m.as_ref()))
+                .collect(),
+            Stmt::Match(s) => vec![&s.subject],
+            _ => vec![],
+        }
+    }
+
+    /// Targets of assignment expressions (`name := value`) anywhere inside `expr`.
+    fn collect_walrus_targets(expr: &Expr, line: usize, local_vars: &mut HashMap<String, usize>) {
+        let mut visit = |e: &Expr| Self::collect_walrus_targets(e, line, local_vars);
+        match expr {
+            Expr::NamedExpr(named) => {
+                if let Expr::Name(name) = named.target.as_ref() {
+                    local_vars.insert(name.id.to_string(), line);
+                }
+                Self::collect_walrus_targets(&named.value, line, local_vars);
+            }
+            Expr::BoolOp(e) => e.values.iter().for_each(visit),
+            Expr::BinOp(e) => [&e.left, &e.right].into_iter().for_each(|x| visit(x)),
+            Expr::UnaryOp(e) => visit(&e.operand),
+            Expr::Compare(e) => std::iter::once(e.left.as_ref())
+                .chain(&e.comparators)
+                .for_each(visit),
+            Expr::IfExp(e) => [&e.test, &e.body, &e.orelse]
+                .into_iter()
+                .for_each(|x| visit(x)),
+            Expr::Call(e) => std::iter::once(e.func.as_ref())
+                .chain(&e.args)
+                .chain(e.keywords.iter().map(|k| &k.value))
+                .for_each(visit),
+            Expr::Tuple(e) => e.elts.iter().for_each(visit),
+            Expr::List(e) => e.elts.iter().for_each(visit),
+            Expr::Set(e) => e.elts.iter().for_each(visit),
+            Expr::Attribute(e) => visit(&e.value),
+            Expr::Subscript(e) => [&e.value, &e.slice].into_iter().for_each(|x| visit(x)),
+            Expr::Starred(e) => visit(&e.value),
+            Expr::Await(e) => visit(&e.value),
+            _ => {}
         }
     }
 
@@ -193,13 +364,13 @@ impl FixtureDatabase {
             }
             Stmt::While(while_stmt) => {
                 self.visit_expr_for_names(&while_stmt.test, ctx);
-                for stmt in &while_stmt.body {
+                for stmt in while_stmt.body.iter().chain(&while_stmt.orelse) {
                     self.visit_stmt_for_names(stmt, ctx);
                 }
             }
             Stmt::For(for_stmt) => {
                 self.visit_expr_for_names(&for_stmt.iter, ctx);
-                for stmt in &for_stmt.body {
+                for stmt in for_stmt.body.iter().chain(&for_stmt.orelse) {
                     self.visit_stmt_for_names(stmt, ctx);
                 }
             }
@@ -213,7 +384,7 @@ impl FixtureDatabase {
             }
             Stmt::AsyncFor(for_stmt) => {
                 self.visit_expr_for_names(&for_stmt.iter, ctx);
-                for stmt in &for_stmt.body {
+                for stmt in for_stmt.body.iter().chain(&for_stmt.orelse) {
                     self.visit_stmt_for_names(stmt, ctx);
                 }
             }
@@ -246,6 +417,31 @@ impl FixtureDatabase {
                 }
                 for stmt in &try_stmt.finalbody {
                     self.visit_stmt_for_names(stmt, ctx);
+                }
+            }
+            Stmt::TryStar(try_stmt) => {
+                let handler_bodies = try_stmt.handlers.iter().map(|handler| {
+                    let ExceptHandler::ExceptHandler(h) = handler;
+                    &h.body
+                });
+                for body in std::iter::once(&try_stmt.body)
+                    .chain(handler_bodies)
+                    .chain([&try_stmt.orelse, &try_stmt.finalbody])
+                {
+                    for stmt in body {
+                        self.visit_stmt_for_names(stmt, ctx);
+                    }
+                }
+            }
+            Stmt::Match(match_stmt) => {
+                self.visit_expr_for_names(&match_stmt.subject, ctx);
+                for case in &match_stmt.cases {
+                    if let Some(ref guard) = case.guard {
+                        self.visit_expr_for_names(guard, ctx);
+                    }
+                    for stmt in &case.body {
+                        self.visit_stmt_for_names(stmt, ctx);
+                    }
                 }
             }
             Stmt::AnnAssign(ann_assign) => {
@@ -357,6 +553,43 @@ impl FixtureDatabase {
             }
             Expr::Await(await_expr) => {
                 self.visit_expr_for_names(&await_expr.value, ctx);
+            }
+            Expr::BoolOp(boolop) => {
+                for value in &boolop.values {
+                    self.visit_expr_for_names(value, ctx);
+                }
+            }
+            Expr::IfExp(ifexp) => {
+                self.visit_expr_for_names(&ifexp.test, ctx);
+                self.visit_expr_for_names(&ifexp.body, ctx);
+                self.visit_expr_for_names(&ifexp.orelse, ctx);
+            }
+            Expr::Set(set) => {
+                for elt in &set.elts {
+                    self.visit_expr_for_names(elt, ctx);
+                }
+            }
+            Expr::Starred(starred) => {
+                self.visit_expr_for_names(&starred.value, ctx);
+            }
+            Expr::Slice(slice) => {
+                for bound in [&slice.lower, &slice.upper, &slice.step]
+                    .into_iter()
+                    .flatten()
+                {
+                    self.visit_expr_for_names(bound, ctx);
+                }
+            }
+            Expr::Yield(yield_expr) => {
+                if let Some(ref value) = yield_expr.value {
+                    self.visit_expr_for_names(value, ctx);
+                }
+            }
+            Expr::YieldFrom(yield_from) => {
+                self.visit_expr_for_names(&yield_from.value, ctx);
+            }
+            Expr::NamedExpr(named) => {
+                self.visit_expr_for_names(&named.value, ctx);
             }
             _ => {}
         }
